@@ -153,7 +153,10 @@ impl TrampolineRoutingPolicy {
             None => return false,
         };
 
-        total_msat >= invoice_msat + fee_msat
+        match invoice_msat.checked_add(fee_msat) {
+            Some(required_msat) => total_msat >= required_msat,
+            None => false,
+        }
     }
 }
 
